@@ -32,7 +32,7 @@ def plan(tier, seed):
     n = 260 if tier == "quick" else 5000
     return {"shards": 16, "timeout": 900 if tier == "quick" else 3600, "n": n,
             "floors": {"renderings_compared": n * 8, "reader_postconditions": n, "empty_run_cases": 60, "distinct": 100,
-                       "foreign_encodings_compared": n}}
+                       "foreign_encodings_compared": n, "text_dialect_cases": n // 2}}
 
 
 def base_form(rng, i):
@@ -486,6 +486,56 @@ def run_shard(ctx):
                 if d:
                     ctx.viol(f"differs:csv:content:compact-layout:{d[0]}", f"[csv/{ch}, sheet name on the header row: {compact}] differs from dict reference in {d[0]}: {d[1]}"[:900],
                              common.witness(form, fmt="csv", channel=ch, variant="compact-layout", sheets=_jsonable(sheets)))
+        # (2g') text dialects: the same cells as other programs save them - CSV with minimal / non-numeric quoting, LF / CR LF / CR line ends, rows padded
+        #       to a rectangle, no final line end; markdown with CR LF, indentation, trailing blanks, blank lines between sheets, tabs around pipes
+        if i % 3 == 2 and md_representable(sheets):
+            import csv as _csv
+            import io as _io2
+            refd = drive.call_convert(render.to_dict(sheets), **form.args)
+            if refd.ok or refd.exc_is_pyxform:
+                multi = any(isinstance(c, str) and ("\n" in c or "\r" in c) for _, (_h, rows_) in sheets.items() for r in rows_ for c in r)
+                for _k in range(3):
+                    q = rng.choice([_csv.QUOTE_ALL, _csv.QUOTE_MINIMAL, _csv.QUOTE_NONNUMERIC])
+                    lt = rng.choice(["\r\n", "\n"] + ([] if multi else ["\r"]))
+                    pad = rng.random() < 0.5
+                    final = rng.random() < 0.7
+                    buf = _io2.StringIO(newline="")
+                    w = _csv.writer(buf, quoting=q, lineterminator=lt)
+                    width = max(len(h) for h, _r in sheets.values()) + 1 + rng.randint(0, 3)
+                    def wr(row):
+                        w.writerow(row + [""] * (width - len(row)) if pad else row)
+                    for name, (hdrs, rows_) in sheets.items():
+                        wr([name])
+                        wr([""] + ["" if h is None else h for h in hdrs])
+                        for r in rows_:
+                            cells = ["" if render.canon_text(c) is None else render.canon_text(c) for c in r]
+                            if any(cells):
+                                wr([""] + cells)
+                    text = buf.getvalue() if final else buf.getvalue().rstrip("\r\n")
+                    ch = rng.choice(["str", "bytes", "bytesio"])
+                    o = (drive.call_convert(text, file_type=".csv", **form.args) if ch == "str" else drive.call_convert(text.encode("utf-8"), file_type=".csv", **form.args)
+                         if ch == "bytes" else drive.call_convert(_io2.BytesIO(text.encode("utf-8")), file_type=".csv", **form.args))
+                    ctx.ctr("text_dialect_cases")
+                    ctx.case(sig=f"{sig}|csv|dialect|{q}|{lt!r}|{pad}|{final}|{ch}")
+                    d = outcome_diff(refd, o)
+                    if d:
+                        ctx.viol(f"differs:csv:content:dialect:{d[0]}", f"[csv/{ch}; quoting={q} line end={lt!r} padded={pad} final line end={final}] differs from dict reference in {d[0]}: {d[1]}"[:900],
+                                 common.witness(form, fmt="csv", channel=ch, variant="dialect", sheets=_jsonable(sheets)))
+                md0 = render.to_md(sheets)
+                styles = {"crlf": md0.replace("\n", "\r\n"), "indent": "\n".join("   " + l for l in md0.split("\n")), "trailing-blanks": "\n".join(l + "   " for l in md0.split("\n")),
+                          "blank-lines": "\n\n".join(md0.split("\n")), "no-final-line-end": md0.rstrip("\n")}
+                if "\t" not in md0:
+                    styles["tabs"] = md0.replace(" | ", "\t|\t")
+                for stn in rng.sample(sorted(styles), 2):
+                    ch = rng.choice(["str", "bytes"])
+                    t = styles[stn]
+                    o = drive.call_convert(t if ch == "str" else t.encode("utf-8"), file_type=".md", **form.args)
+                    ctx.ctr("text_dialect_cases")
+                    ctx.case(sig=f"{sig}|md|dialect|{stn}|{ch}")
+                    d = outcome_diff(refd, o)
+                    if d:
+                        ctx.viol(f"differs:md:content:dialect:{stn}:{d[0]}", f"[md/{ch}; layout {stn}] differs from dict reference in {d[0]}: {d[1]}"[:900],
+                                 common.witness(form, fmt="md", channel=ch, variant=f"dialect-{stn}", sheets=_jsonable(sheets)))
         # (2h) text containers saved with a UTF-8 signature (what spreadsheet programs write for "CSV UTF-8"): an encoding mark, not workbook content
         if i % 3 == 1 and md_representable(sheets):
             import tempfile
